@@ -112,6 +112,7 @@ struct Expect {
   int create_res = 0;
   std::vector<XRep> reports;
   std::vector<int> oks;
+  std::vector<int> oks_optional;   // accepted calls ended by an exception from a side effect: 0 or 1 OK report (unstated)
   std::vector<XTrace> traces;
   std::vector<Clause> clauses;     // FX / RET / THROW in order
   std::vector<XNested> nested;
@@ -190,7 +191,7 @@ class Model {
         if (slot_eid[s.slot] >= 0 || !obj[s.obj].alive) return false;
         for (int j = 0; j < s.nseq; ++j) if (!seq[s.seq[j]].alive) return false;
         if (s.nseq == 2 && s.seq[0] == s.seq[1]) return false;
-        if (s.nseq > 0 && s.hi == 0) return false;  // forbidden + IN_SEQUENCE: excluded (compile-time API forbids it)
+        if (s.nseq > 0 && s.hi == 0 && s.lit >= 0) return false;  // compile-time forbids cannot be sequenced; RT_TIMES(0) + IN_SEQUENCE can
         if (s.lit >= 0) for (int q = NSLOT; q < NALL; ++q) if (slot_eid[q] >= 0 && E.at(slot_eid[q]).s.lit == s.lit) return false;  // one location = one live expectation
         if ((s.lit >= 0) != (s.slot >= NSLOT)) return false;
         return true;
@@ -336,6 +337,13 @@ class Model {
       if (cand != M[0]) { x.handler_not_newest = true; if (c_newest >= COST_INF) x.blocked_yield = true; }
       if (e.seqs.size() >= 2) x.multiseq = true;
     }
+    if (e.s.hi == 0) {
+      XRep r; r.kind = K_FORBIDDEN; r.fatal = true; r.eid = cand; r.func = func; r.args = args;
+      x.reports.push_back(r);
+      e.reported = true;
+      if (depth == 1) { x.forbidden_hit = true; x.rejected_with_live = true; }
+      return CallResult{R_FATAL, 0, ""};
+    }
     if (best >= COST_INF) {
       XRep r; r.kind = K_SEQ_CALL; r.fatal = true; r.eid = cand; r.func = func; r.args = args;
       x.reports.push_back(r);
@@ -361,6 +369,7 @@ class Model {
       mo.saturated[func].push_back(cand);
       e.saturated = true;
     }
+    size_t ok_at = x.oks.size();
     x.oks.push_back(cand);
     const Spec sp = e.s;  // copy: nested calls may change the map
     int tr = tracers.empty() ? -1 : tracers.back();
@@ -383,6 +392,10 @@ class Model {
       if (sp.term == 1) { x.clauses.push_back(Clause{C_THROW, cand, 0, depth}); res = CallResult{R_THROWN, cand, ""}; }
       else if (sp.func == F_v) res = CallResult{R_RETURNED, 0, ""};
       else { x.clauses.push_back(Clause{C_RET, cand, 0, depth}); res = CallResult{R_RETURNED, cand, ""}; }
+    }
+    if (done) {  // the exception came out of a side effect (own throw or a nested call's)
+      x.oks.erase(x.oks.begin() + static_cast<long>(ok_at));
+      x.oks_optional.push_back(cand);
     }
     if (tr >= 0) x.traces.push_back(XTrace{tr, cand, func, args, res});
     return res;
@@ -458,7 +471,7 @@ class Model {
         XRep r; r.kind = K_SEQ_DESTROYED; r.fatal = false; r.seq = o.at(0);
         for (int eid : sq.pending) {
           MExp& e = E.at(eid);
-          if (e.is_mon && e.died) r.optional_listed.push_back(eid);  // dead-but-unreleased monitor: either way
+          if ((e.is_mon && e.died) || (!e.is_mon && e.s.hi == 0)) r.optional_listed.push_back(eid);  // saturated members: listed or not, either way
           else r.listed.push_back(XListed{eid, {}, -1});
           e.seq_named = true;
           e.tainted = true;  // eligibility after its sequence object died is unspecified
